@@ -84,6 +84,7 @@ func zzC10_step(proto, role, state, op, msgLen int) {
 	seed := nondetBytes(32)
 	// drive the instance into automaton state `state` with real calls:
 	// 0 new | 1 started | 2 one timeout | 3 two timeouts | 4 ended | 5 started + invalid vector from the dealer
+	// 6 one timeout + a pending complaint against the dealer
 	running, timeouts := false, 0
 	if state >= 1 {
 		verifAssert(st.Start(seed) == nil, "Start accepted on a new instance")
@@ -95,6 +96,19 @@ func zzC10_step(proto, role, state, op, msgLen int) {
 	if state >= 2 && state <= 4 {
 		verifAssert(st.NextTimeout() == nil, "first timeout accepted")
 		timeouts = 1
+	}
+	if state == 6 {
+		// the dealer dealt properly; one timeout passed and a complaint against dealer d from another
+		// participant is pending (unanswered)
+		if proto != 0 {
+			_ = st.HandleBroadcastMsg(d, dkgVecMsg(0, n, t, d))
+			_ = st.HandlePrivateMsg(d, dkgShareMsg(0, n, t, d, me))
+		}
+		verifAssert(st.NextTimeout() == nil, "first timeout accepted")
+		timeouts = 1
+		if proto != 0 {
+			_ = st.HandleBroadcastMsg(2, []byte{byte(feldmanVSSComplaint), byte(d)})
+		}
 	}
 	if state >= 3 && state <= 4 {
 		verifAssert(st.NextTimeout() == nil, "second timeout accepted")
